@@ -350,6 +350,30 @@ def run_clean(ctx) -> RuleResult:
     if not ok:
         result.add(Finding("R-CLEAN", module, "remove_redundant_coefficients", func,
                            "no fall-back to a single zero term when all terms are dropped", construct="zero fall-back"))
+    # the fall-back coefficient is a zero array with the shape and dtype of the input coefficients
+    n_fb = 0
+    for path in ctx.paths_auto(module, func):
+        last = path[-1]
+        if last.kind != "return" or last.node.value is None:
+            continue
+        value = last.expand(last.node.value)
+        if not (isinstance(value, ast.Tuple) and len(value.elts) == 2):
+            continue
+        coefs = value.elts[1]
+        if not (isinstance(coefs, ast.List) and len(coefs.elts) == 1):
+            continue
+        verdict, why = _zero_like_input(ctx, module, coefs.elts[0])
+        if verdict is None:
+            raise AnalysisError(f"remove_redundant_coefficients: fall-back coefficient {_txt(coefs.elts[0])[:80]} not recognised")
+        n_fb += 1
+        result.ob("the fall-back zero coefficient has the shape and dtype of the input coefficients", verdict,
+                  module.loc(last.orig), _txt(coefs.elts[0])[:100])
+        if not verdict:
+            result.add(Finding(
+                "R-CLEAN", module, "remove_redundant_coefficients", last.node,
+                f"when every term is dropped the replacement coefficient is {_txt(coefs.elts[0])[:90]}: {why}; a result "
+                f"whose terms all cancel (p - p, 0 * p, an all-zero selection) silently changes "
+                f"{'shape' if 'shape' in why else 'dtype'}", construct="zero fall-back: shape/dtype"))
     # remove_redundant_names
     func = ctx.repo.function(modname, "remove_redundant_names")
     assigns = [n for n in ast.walk(func) if isinstance(n, ast.Assign) and isinstance(n.targets[0], ast.Name)
@@ -389,6 +413,46 @@ def run_clean(ctx) -> RuleResult:
                            construct="isconstant verdict"))
     result.floor = 6
     return result
+
+
+def _zero_like_input(ctx, module, expr):
+    """(True, '') zeros with shape and dtype of an input coefficient; (False, why) known-wrong; (None, '')."""
+    if not (isinstance(expr, ast.Call) and not is_S(expr)):
+        return None, ""
+    name = ctx.dotted(module, expr.func) or ""
+    short = name.split(".")[-1]
+    if not name.startswith("numpy."):
+        return None, ""
+    if short in ("zeros_like", "empty_like", "ones_like", "full_like"):
+        if short != "zeros_like" and not (short == "full_like" and len(expr.args) > 1 and isinstance(expr.args[1], ast.Constant)
+                                          and expr.args[1].value == 0):
+            return False, f"numpy.{short} does not produce zeros"
+        if not expr.args or "coefficients" not in _txt(expr.args[0]):
+            return None, ""
+        for kw in expr.keywords:
+            if kw.arg == "dtype" and not (_txt(kw.value).endswith(".dtype") and "coefficients" in _txt(kw.value)):
+                return False, f"its dtype is overridden by dtype={_txt(kw.value)[:40]}"
+            if kw.arg == "shape" and not (_txt(kw.value).endswith(".shape") and "coefficients" in _txt(kw.value)):
+                return False, f"its shape is overridden by shape={_txt(kw.value)[:40]}"
+        return True, ""
+    if short in ("zeros", "empty", "ones", "full"):
+        if short in ("empty", "ones"):
+            return False, f"numpy.{short} does not produce zeros"
+        shape = expr.args[0] if expr.args else kwarg(expr, "shape")
+        dtype = kwarg(expr, "dtype")
+        if dtype is None:
+            idx = 2 if short == "full" else 1
+            dtype = expr.args[idx] if len(expr.args) > idx else None
+        if shape is None:
+            return None, ""
+        if not (_txt(shape).endswith(".shape") and "coefficients" in _txt(shape)):
+            return False, f"its shape is {_txt(shape)[:40]}, not the shape of the input coefficients"
+        if dtype is None:
+            return False, "no dtype is given (float64), the dtype of the input coefficients is lost"
+        if not (_txt(dtype).endswith(".dtype") and "coefficients" in _txt(dtype)):
+            return False, f"its dtype is {_txt(dtype)[:40]}, not the dtype of the input coefficients"
+        return True, ""
+    return None, ""
 
 
 def _term_formula(ctx, module, node, exp_name, coef_name):
@@ -524,6 +588,23 @@ def run_power(ctx) -> RuleResult:
         if not ok:
             result.add(Finding("R-POWER", module, "power", step.node,
                                "the running product is not initialised with the constant one of the base's shape (x ** 0 must have the shape of x)", construct="power: init"))
+        if ok:
+            dtype = kwarg(ones[0], "dtype") or (ones[0].args[1] if len(ones[0].args) > 1 else None)
+            text_d = _txt(dtype) if dtype is not None else ""
+            from_base = ("π" + params[0]) in text_d and "dtype" in text_d
+            constant = dtype is None or isinstance(dtype, ast.Constant) or (
+                isinstance(dtype, (ast.Name, ast.Attribute)) and not any(
+                    isinstance(n2, ast.Name) and n2.id.startswith("π") for n2 in walk_shared(dtype)))
+            if not from_base and not constant:
+                raise AnalysisError(f"power: dtype of the initial one not recognised: {text_d[:60]}")
+            result.ob("the initial one has the coefficient dtype of the base", from_base, where, text_d[:60])
+            if not from_base:
+                result.add(Finding(
+                    "R-POWER", module, "power", ones[0],
+                    f"the constant one that seeds the product is created with dtype={text_d or 'float64 (default)'}, not the "
+                    f"base's dtype: it takes part in the dtype promotion of every multiplication, so x ** 0 and powers of "
+                    f"narrow/unsigned/bool bases come out in another dtype (and no longer wrap like numpy)",
+                    construct="power: dtype of the initial one"))
         body_calls = [c for s in step.node.body for c in calls_in(s) if (ctx.dotted(module, c.func) or "").endswith(".multiply")]
         ok = len(body_calls) == 1 and len(body_calls[0].args) >= 2 and U(body_calls[0].args[0]) == acc and params[0] in U(step.expand(body_calls[0].args[1]))
         result.ob("each step multiplies the running product by the base", ok, where, "")
